@@ -479,3 +479,21 @@ def inject_nonlinear_tail(draw, spec):
         spec['terminals'][name] = {'type': [], 'weights': draw(st.sampled_from((0.25, 0.5)))}
         r['edges'].append({'label': name, 'att': []})
     return True
+
+
+def inject_diamond(draw, spec):
+    """Mutates spec: a new arity-0 start symbol S0 -> D0 E0 F0 with D0 -> S..., E0 -> S..., F0 -> S... (S the old start, its external nodes
+    summed out): two sibling nonterminals that share an already finished sub-nonterminal (cross edges in the dependency graph)."""
+    old = spec['start']
+    ty = list(spec['nonterminals'][old])
+    sibs = ('D0', 'E0', 'F0')      # three siblings: whichever is visited first finishes cleanly, the other two see a finished S
+    for n in ('S0',) + sibs:
+        if n in spec['nonterminals'] or n in spec['terminals']: return False
+    spec['nonterminals'].update({n: [] for n in ('S0',) + sibs})
+    top = {'lhs': 'S0', 'nodes': [], 'ext': [], 'edges': [{'label': x, 'att': []} for x in sibs]}
+    mid = [{'lhs': x, 'nodes': list(ty), 'ext': [], 'edges': [{'label': old, 'att': list(range(len(ty)))}]} for x in sibs]
+    pos = draw(st.integers(0, 2))
+    new = [top] + mid
+    spec['rules'] = (new + spec['rules']) if pos == 0 else (spec['rules'] + new) if pos == 1 else (mid + spec['rules'] + [top])
+    spec['start'] = 'S0'
+    return True
